@@ -35,7 +35,20 @@ class Inter:
         if self.size == 'S':
             return P(head + b'\x00\xff', head if (i % 2) else None)
         if self.size == 'F':
-            return P(head + _FILL[:150 + i], head + _FILL[:70])
+            # fragmenting payloads; the shape rotates with the element index so that boundary sizes occur:
+            # generic multi-fragment, exact multiple of the fragment body, exactly one full frame, one byte more, metadata only
+            fs, flavour = getattr(self, 'ctx', (64, 'tcp'))
+            body = (fs or 64) - 6 - (3 if flavour == 'tcp' else 0)
+            shape = (i + {'q': 0, 'r': 1, 'd': 0, 'u': 2}[role] + (3 if (self.tag == 'B' and role == 'q') else 0)) % 5
+            if shape == 0:
+                return P(head + _FILL[:150 + i], head + _FILL[:70])
+            if shape == 1:
+                return P((head + _FILL)[:2 * body], None)
+            if shape == 2:
+                return P((head + _FILL)[:body], None)
+            if shape == 3:
+                return P((head + _FILL)[:body + 1], None)
+            return P(None, head + _FILL[:130])
         if self.size == 'M':  # metadata only, more than one fragment of metadata
             return P(None, head + _FILL[:130])
         if self.size == 'X':  # fits exactly / off by one around a 64-byte fragment: header 6 + 3 prefix
@@ -70,6 +83,8 @@ class Mix(Scenario):
 
     # ------------------------------------------------------------------------------------------------------------
     def setup(self, w):
+        for i in self.inters:
+            i.ctx = (self.fs, self.flavour)
         by_tag = {i.tag: i for i in self.inters}
         w.objs['inters'] = by_tag
         st = w.objs['st'] = {i.tag: {} for i in self.inters}  # per-interaction runtime objects
@@ -252,6 +267,8 @@ class Mix(Scenario):
         return [pl(it.pay('u', i)) for i in range(max(it.up, 0))]
 
     def check_delivery(self, w):
+        for i in self.inters:
+            i.ctx = (self.fs, self.flavour)
         out = []
         calls = {'c0': [], 's0': []}
         for ev in w.log:
